@@ -1304,11 +1304,22 @@ def m_sqrt(eng, x):
         n, d = f.numerator, f.denominator
         if isqrt(n) ** 2 == n and isqrt(d) ** 2 == d:
             return Fraction(isqrt(n), isqrt(d))
-        x = to_real(f)
+        # an irrational root of a numeral: the defining equation plus a tight rational enclosure (linear facts that
+        # decide comparisons between such roots without nonlinear reasoning)
+        key = ('sqrt-of', f)
+        if key in eng._fresh_path:                      # the same radicand on this path: the same root
+            return eng._fresh_path[key]
+        y = z3.Real(eng.fresh('sqrt'))
+        eng._fresh_path[key] = y
+        lo = Fraction(isqrt(n * 10 ** 24 // d), 10 ** 12)
+        eng.assume(y * y == to_real(f))
+        eng.assume(z3.And(y > 0, y >= to_real(lo), y <= to_real(lo + Fraction(1, 10 ** 12))))      # linear: goes to the feasibility solver
+        return y
     if eng.branch(to_real(x) < 0, precise=True):
         raise PyExc('ValueError', 'math domain error')
     y = z3.Real(eng.fresh('sqrt'))
-    eng.assume(z3.And(y >= 0, y * y == to_real(x)))
+    eng.assume(y >= 0)
+    eng.assume(y * y == to_real(x))
     return y
 
 
@@ -1511,7 +1522,8 @@ def _ckdtree(eng, points, *a, **k):
 
 def _norm_of_sq(eng, d):
     y = z3.Real(eng.fresh('norm'))
-    eng.assume(z3.And(y >= 0, y * y == to_real(d)))
+    eng.assume(y >= 0)
+    eng.assume(y * y == to_real(d))
     return y
 
 
@@ -1589,7 +1601,8 @@ def np_norm(eng, v):
         return m_sqrt.fn(eng, d)
     # a sum of squares is never negative: no domain-error branch (the nonlinear feasibility query is the unstable one)
     y = z3.Real(eng.fresh('norm'))
-    eng.assume(z3.And(y >= 0, y * y == to_real(d)))
+    eng.assume(y >= 0)
+    eng.assume(y * y == to_real(d))
     for c in v.items:                                   # lemma |v| >= |v_k| (linear help for the solver)
         eng.assume(z3.And(y >= to_real(c), y >= -to_real(c)))
     return y
